@@ -24,6 +24,20 @@ SCRIPTS = [
     "function g(n) { foreach k in [n] { k++; n--; } return [n, 3.75]; } x = 3.75; return [g(3.75), g(x), x];",
 ]
 
+def clash_script(rng):
+    """one small set of names used as fields, globals, parameters, locals and loop variables; which scopes a run opens and how it
+    leaves them depends on the object (Mode); later runs read the same names inside fresh scopes at the same depths"""
+    P = ["Count", "Name", "Tags", "seen", "hits", "k", "item", "Ratio"]
+    p = lambda: rng.choice(P)
+    f1 = "function fa(%s) { local %s; %s = 1; foreach %s in [1, 2] { if (Mode == 9) { return 0; } } return %s; } " % (p(), p(), P[3], p(), p())
+    f2 = "function fb(%s, %s) { foreach %s in [3] { foreach %s in [4] { return fa(%s); } } } " % (p(), p(), p(), p(), p())
+    body = ("if (Mode == 1) { return fa(7); } if (Mode == 2) { foreach %s in [1, 2] { foreach %s in [1, 2] { if (%s == 2) { return \"aborted\"; } } } } "
+            "if (Mode == 3) { foreach %s in [5] { return 1 %% 0; } } if (Mode == 4) { return fb(8, 9); } if (Mode == 5) { foreach %s in [6] { panic(\"p\"); } } "
+            % (p(), p(), p(), p(), p()))
+    tail = ("foreach it in [1] { x1 = %s; x2 = %s; foreach it2 in [2] { x3 = %s; x4 = %s; } } function fc() { return [%s, %s]; } return [x1, x2, x3, x4, fc(), %s];"
+            % (p(), p(), p(), p(), p(), p(), p()))
+    return f1 + f2 + body + tail
+
 class C07(Prop):
     id = "C07"
     compare_run = True
@@ -69,6 +83,8 @@ class C07(Prop):
         for sc in SCRIPTS[-4:]:
             for _ in range(3):
                 out.append(Case("run", self.history(rng, sc, rng.randint(3, 5)), "literal-scenario"))
+        for _ in range(n):
+            out.append(Case("run", self.history(rng, clash_script(rng), rng.randint(3, 8)), "name-clash"))
         for _ in range(n):
             g = gen.Gen(rng, max_depth=2, illtyped=0.1)
             src = g.program(nstmts=rng.randint(2, 5), nfuncs=rng.randint(0, 2), depth=2)
